@@ -17,6 +17,7 @@ static spsc_fifo_t* sq_p;
 #define mq (*mq_p)
 #define sq (*sq_p)
 static mpscr_fifo_t* rq;
+static int lanes, lane_of[MAXP]; /* relaxed queue: more lanes than producer threads, each thread with its own producer number */
 /* relaxed queue oracle */
 static int last_seq[MAXP], popped_cnt, pushed_done[MAXP], pushed_begun[MAXP];
 static unsigned char got[MAXP][MAXOPS + 1];
@@ -92,7 +93,7 @@ static void do_push(int p, int q) {
     spsc_node_t* n = node_get(sizeof *n);
     n->data = PAYLOAD(p, q, v);
     if (kind == Q_SPSC) spsc_fifo_push(&sq, n);
-    else mpscr_fifo_push(rq, p, n);
+    else mpscr_fifo_push(rq, (size_t)lane_of[p], n);
   }
   g_push_done(p);
   g_ret(h, RES_OK);
@@ -153,8 +154,19 @@ void h_run(void) {
     null_p = wl_pick(nprod);
     null_q = wl_pick(npush[null_p]);
   }
+  /* "any number of producers": the relaxed queue is created for up to 14 producers of which nprod take part */
+  lanes = wl_pct(50) ? nprod : wl_int(nprod, 14);
+  for (int p = 0; p < nprod; p++) {
+    int again;
+    do {
+      lane_of[p] = lanes == nprod ? p : wl_pick(lanes);
+      again = 0;
+      for (int q = 0; q < p; q++) again |= lane_of[q] == lane_of[p];
+    } while (again);
+  }
   static const char* const kn[] = {"mpsc", "spsc", "mpsc-relaxed"};
-  sim_describe("%s producers=%d pushes=%d concurrent_pops=%d node_recycling=%d null_payload=%d/%d preempt=1/%d", kn[kind], nprod, total, cons_pops, recycle_on, null_p, null_q, c.preempt_inv);
+  sim_describe("%s producers=%d (producer numbers %d,%d,%d of %d) pushes=%d concurrent_pops=%d node_recycling=%d null_payload=%d/%d preempt=1/%d", kn[kind], nprod, lane_of[0], nprod > 1 ? lane_of[1] : -1,
+               nprod > 2 ? lane_of[2] : -1, lanes, total, cons_pops, recycle_on, null_p, null_q, c.preempt_inv);
   sim_nontrivial();
   hist_reset(M_FIFO, 0);
   mq_p = h_dirty_alloc(sizeof *mq_p);
@@ -163,7 +175,7 @@ void h_run(void) {
   if (tso) sim_tso_enable_plain();
   if (kind == Q_MPSC) mpsc_fifo_init(&mq);
   else if (kind == Q_SPSC) spsc_fifo_init(&sq);
-  else rq = mpscr_fifo_create(nprod);
+  else rq = mpscr_fifo_create((size_t)lanes);
   pthread_t th[MAXP + 1];
   for (int p = 0; p < nprod; p++) pthread_create(&th[p], NULL, producer, (void*)(intptr_t)p);
   pthread_create(&th[nprod], NULL, consumer, NULL);
